@@ -118,12 +118,12 @@ class World:
                     self.keepalive.append(d.get(path[-1]))
                     d[path[-1]] = copy.deepcopy(v)
                 elif kind == 'setPrms':
-                    from ruamel.yaml import YAML
+                    from . import yamlspell
                     f = os.path.join(self.tmp, f'p{len(self.keepalive)}.yml')
-                    with open(f, 'w') as fh:
-                        YAML(typ='safe').dump(op[1], fh)
-                    with open(f) as fh:
-                        self.loaded = YAML(typ='safe').load(fh)      # what set_prms will read (key order of the file)
+                    # hand-spelled YAML (exponent notation, bare words); the intended content under YAML 1.2 is
+                    # op[1] itself (verified by yamlspell.write), in the key order of the file
+                    yamlspell.write(f, op[1], random.Random(repr(op[1])))
+                    self.loaded = copy.deepcopy(op[1])
                     self.amp.set_prms(f)
                 elif kind == 'reset':
                     self.amp.reset_prms(op[1])
@@ -201,6 +201,38 @@ def new_value(rng, old):
     return 1
 
 
+_WORDS = None
+
+
+def source_words(defaults):
+    """Identifier-like string constants harvested from the package's own source (a fuzzer's dictionary): candidate
+    *unknown* parameter names that the code might treat specially (legacy names, aliases).  Known keys are removed."""
+    global _WORDS
+    if _WORDS is None:
+        import ast
+        import re
+        known = set()
+
+        def walk(d):
+            for k, v in d.items():
+                known.add(k)
+                if isinstance(v, dict):
+                    walk(v)
+        walk(defaults)
+        found = set()
+        for f in sorted((common.REPO / 'src' / 'ampycloud').rglob('*.py')):
+            try:
+                t = ast.parse(f.read_text())
+            except (SyntaxError, OSError):
+                continue
+            for node in ast.walk(t):
+                if isinstance(node, ast.Constant) and isinstance(node.value, str) \
+                        and re.fullmatch(r'[A-Za-z_][A-Za-z0-9_]{3,40}', node.value) and node.value not in known:
+                    found.add(node.value)
+        _WORDS = sorted(found)
+    return _WORDS
+
+
 def partial_dict(rng, defaults, unknown=True, mistyped=False):
     """A nested, partial per-call dictionary: a random subset of leaves at any depth, unknown keys included."""
     out = {}
@@ -210,14 +242,21 @@ def partial_dict(rng, defaults, unknown=True, mistyped=False):
         for p in path[:-1]:
             d = d.setdefault(p, {})
         d[path[-1]] = new_value(rng, old)
+    words = source_words(defaults)
     if unknown and rng.random() < 0.5:
-        out[rng.choice(['NOT_A_KEY', 'msa', 'Lowess'])] = rng.choice([1, 'x', [1, 2]])
-    if unknown and rng.random() < 0.3:
+        out[rng.choice(['NOT_A_KEY', 'msa', 'Lowess'] + words[:0] + ([rng.choice(words)] * 3 if words else []))] = \
+            rng.choice([1, 'x', [1, 2]])
+    if unknown and rng.random() < 0.4:
         dp = rng.choice(dict_paths(defaults))
         d = out
         for p in dp:
             d = d.setdefault(p, {})
-        d['unknown_nested'] = rng.choice([3, {'deep': 1}])
+        d[rng.choice(['unknown_nested'] + ([rng.choice(words)] * 2 if words else []))] = rng.choice([3, {'deep': 1}])
+    if rng.random() < 0.25:
+        out['EXCLUDE_FOR_BASE_HEIGHT_CALC'] = rng.sample(['NO', 'yes', 'on', 'A1', '0', 'Off', 'n'], rng.randint(0, 3))
+    if rng.random() < 0.2:
+        out['MSA'] = rng.choice([None, 3e3, 5e4, 2500])
+        out.setdefault('SLICING_PRMS', {})['dt_scale'] = rng.choice([5e4, 1e5, 100000])
     if mistyped and rng.random() < 0.5:
         # a dict where the reference holds a leaf (AttributeError in the code), or a leaf where it holds a dict
         if rng.random() < 0.5:
